@@ -13,6 +13,9 @@ use std::collections::BTreeSet;
 #[derive(Clone, Debug, Hash)]
 pub struct C05Case {
     pub w: World,
+    /// limit set before each query (None = unchanged); includes 0, so that a search that may
+    /// return nothing is followed by one that may
+    pub limits: Vec<Option<usize>>,
 }
 
 pub fn decode(src: &mut Source) -> Box<dyn Case> {
@@ -22,7 +25,8 @@ pub fn decode(src: &mut Source) -> Box<dyn Case> {
         gen_world(src, WorldOpts { dup_ids: false, max_recs: 12, queries: 3, ..WorldOpts::highlight() })
     };
     w.markers = (SL.to_string(), SR.to_string());
-    Box::new(C05Case { w })
+    let limits = (0..w.queries.len()).map(|_| if src.chance(1, 4) { Some(*src.pick(&[0usize, 1, 2, 10, 3])) } else { None }).collect();
+    Box::new(C05Case { w, limits })
 }
 
 /// many records over a tiny vocabulary and a small limit, queried several times in a row: the
@@ -66,13 +70,14 @@ fn crowded_world(src: &mut Source) -> World {
             }
         })
         .collect();
-    World { lang, recs, limit, queries, markers: (SL.to_string(), SR.to_string()) }
+    World { lang, recs, limit, queries, markers: (SL.to_string(), SR.to_string()), refilled: false }
 }
 
 impl Case for C05Case {
     fn describe(&self) -> Value {
         let mut d = self.w.describe();
         d["markers"] = json!("sentinels U+E000/U+E001");
+        d["limit_set_before_each_query"] = json!(self.limits);
         d
     }
     fn key(&self) -> u64 {
@@ -80,11 +85,15 @@ impl Case for C05Case {
     }
     fn check(&self, ctx: &mut Ctx) -> Result<(), Violation> {
         let w = &self.w;
-        let store = w.store();
+        let mut store = w.store();
         let l = lang_of(w.lang);
         let toks: Vec<TextOwn> = w.recs.iter().map(|r| tokenize_record(&r.1, &l)).collect();
-        for q in &w.queries {
+        for (qi, q) in w.queries.iter().enumerate() {
+            if let Some(Some(lim)) = self.limits.get(qi) {
+                store.limit = *lim;
+            }
             if !q.chars().any(|c| c.is_alphanumeric()) {
+                let _ = search(&store, q);
                 continue; // the property quantifies over queries with a letter or digit
             }
             let tq = tokenize_query(q, &l);
@@ -213,6 +222,10 @@ impl Case for PrefixCase {
                 // explain that, the probe is made anyway and judged against the prefix itself)
                 let pp = if odd { p } else { typed.len() };
                 let exp = if pp == p { exp.clone() } else { format!("{}<<{}>>{}", nz(&t.source[..wd.slice.0]), nz(&t.source[wd.slice.0..wd.slice.0 + pp]), nz(&t.source[wd.slice.0 + pp..])) };
+                if (p + vi) % 4 == 0 {
+                    // the user typed the word and a space, then took the space back
+                    let _ = search(&store, &format!("{} ", q));
+                }
                 let hits = search(&store, q);
                 ctx.count("prefix_probes", 1);
                 match hits.iter().find(|h| h.0 == 1) {
